@@ -416,7 +416,7 @@ def run(ctx):
         lst.sort()
         ctx.bad("C06.0", f"{Q}.cell_to_children to resolution {b}: raises {exc} for a valid request", lst[0][1],
                 f"target resolution {b} <= MAX_RESOLUTION, parent resolutions {[x[0] for x in lst]}; first path [{lst[0][2]}]")
-    ctx.floor("resolution pairs analysed", pairs, 1)
+    ctx.floor("resolution pairs analysed", pairs, 1, soft=True)
     ctx.analysed.update({"resolution_pairs": pairs, "interpreter_steps": steps,
                          "functions": [f"{Q}.cell_to_children", f"{Q}.cell_to_parent", f"{Q}.get_res0_cells", f"{Q}.deserialize",
                                        f"{Q}.serialize", f"{Q}.get_resolution", "a5.core.cell_info.get_num_children"]})
